@@ -287,6 +287,23 @@ class P:
         self.eat(")")
         return a
 
+    def pattern(self):
+        if self.peek() == "_":
+            self.eat()
+            return ("wild",)
+        path = [self.eat()]
+        while self.peek() == "::":
+            self.eat()
+            path.append(self.eat())
+        if self.peek() == "(":
+            self.eat()
+            if self.peek() == "..":
+                self.eat()
+            else:
+                raise Unsupported("pattern with bound fields")
+            self.eat(")")
+        return ("variant", path)
+
     def primary(self, nostruct):
         k, t = self.t[self.i]
         if k == "num":
@@ -311,6 +328,35 @@ class P:
             return ("if", c, th, el)
         if t == "{":
             return self.block()
+        if t == "match":
+            self.eat()
+            scrut = self.expr(nostruct=True)
+            self.eat("{")
+            arms = []
+            while self.peek() != "}":
+                pats = [self.pattern()]
+                while self.peek() == "|":
+                    self.eat()
+                    pats.append(self.pattern())
+                self.eat("=>")
+                body = self.expr()
+                if self.peek() == ",":
+                    self.eat()
+                arms.append((pats, body))
+            self.eat("}")
+            return ("match", scrut, arms)
+        if t == "matches" and self.peek(1) == "!":
+            self.eat()
+            self.eat()
+            self.eat("(")
+            scrut = self.expr()
+            self.eat(",")
+            pats = [self.pattern()]
+            while self.peek() == "|":
+                self.eat()
+                pats.append(self.pattern())
+            self.eat(")")
+            return ("match", scrut, [(pats, ("bool", True)), ([("wild",)], ("bool", False))])
         if k == "id":
             path = [self.eat()]
             while self.peek() == "::":
@@ -354,6 +400,7 @@ class Ctx:
         self.consts = consts or {}
         self.opaque = opaque or {}       # textual receiver.method() / receiver.field -> (coq term, type)
         self.ops = ops or {}             # (op, lhs type, rhs type) -> (coq function name, result type, partial?)
+        self.variants = {}               # rust enum variant name -> Coq pattern
 
 
 def cty(ctx, ty):
@@ -366,6 +413,8 @@ def cty(ctx, ty):
         return "option " + cty(ctx, ty[len("Option <"):-1].strip())
     if ty in ctx.records:
         return ctx.records[ty][0]
+    if ty in getattr(ctx, "enums", {}):
+        return ctx.enums[ty]
     raise Unsupported("type %s" % ty)
 
 
@@ -473,6 +522,23 @@ class Tr:
             raise Unsupported("call of %s" % "::".join(p))
         if k == "mcall":
             return self.mcall(x)
+        if k == "match":
+            sc, _ = self.e(x[1])
+            arms, ty = [], "?"
+            for pats, body in x[2]:
+                cp = []
+                for pt in pats:
+                    if pt[0] == "wild":
+                        cp.append("_")
+                    else:
+                        v = pt[1][-1]
+                        if v not in self.ctx.variants:
+                            raise Unsupported("unknown enum variant %s" % "::".join(pt[1]))
+                        cp.append(self.ctx.variants[v])
+                b, bty = self.e(body)
+                ty = bty if "?" in ty else ty
+                arms.append("| %s => %s" % (" | ".join(cp), b))
+            return "(match %s with %s end)" % (sc, " ".join(arms)), ty
         raise Unsupported("expression kind %s" % k)
 
     def text(self, x):
